@@ -234,7 +234,9 @@ def random_pattern(rng):
 TEMPLATES = ['{v} = 0\n', '{v} = 1\n', '{v} += 1\n', '{v} = {v} + {w}\n', '{v} = {w} + {v}\n', 'print({v})\n', '{v} = {w}\n',
              '{v} = {v} * 2\n', '{v}.append({w})\n', '{v} = []\n', 'if {v} > {w}:\n    {v} = {w}\n', 'for {v} in {w}:\n    print({v})\n',
              '{v} = input()\n', '{v} = int({w})\n', 'while {v} < {w}:\n    {v} += 1\n', 'def f_{v}({w}):\n    return {w} + {v}\n',
-             '{v} = f_{w}({v})\n', '{v}, {w} = {w}, {v}\n']
+             '{v} = f_{w}({v})\n', '{v}, {w} = {w}, {v}\n',
+             # commutative operators nested in commutative operators (several alternative pairings per operand)
+             '{v} = {w} + {v} * {w}\n', '{v} = ({v} + {w}) * ({w} + 1)\n', '{v} = {v} * {w} + {w} * {v}\n', '{v} = 1 + ({w} + ({v} + 2))\n']
 
 
 def similar_program(rng):
@@ -255,7 +257,8 @@ def similar_program(rng):
 
 
 SEQ_TEMPLATES = ['{v} = 0\n', '{v} += 1\n', '{v} = {v} + 1\n', 'print({v})\n', '{v} = []\n', '{v}.append(1)\n', '{v} = {v} * 2\n',
-                 '{v} -= 1\n', '{v} = input()\n', '{v} = int({v})\n', 'del {v}\n', '{v} = {v}\n']
+                 '{v} -= 1\n', '{v} = input()\n', '{v} = int({v})\n', 'del {v}\n', '{v} = {v}\n',
+                 '{v} = 2 + {v} * 3\n', '{v} = ({v} + 1) * ({v} + 2)\n']
 
 
 def twin_case(rng):
